@@ -124,7 +124,7 @@ func cmdCheck(args []string) int {
 	}
 	start := time.Now()
 	os.MkdirAll(filepath.Join(verifDir, ".work"), 0o755)
-	os.MkdirAll(filepath.Join(verifDir, "evidence"), 0o755)
+	os.MkdirAll(filepath.Join(evidenceDir(), "replays"), 0o755)
 
 	known := loadKnownFindings()
 	sx.KnownFindingIDs = map[string]bool{}
@@ -284,7 +284,7 @@ func cmdCheck(args []string) int {
 					continue
 				}
 				seenViol[h.Func+"|"+v.Label] = true
-				rp := filepath.Join(verifDir, "evidence", "replays", fmt.Sprintf("%s-%s-%d.json", prop, h.Func, k))
+				rp := filepath.Join(evidenceDir(), "replays", fmt.Sprintf("%s-%s-%d.json", prop, h.Func, k))
 				os.MkdirAll(filepath.Dir(rp), 0o755)
 				rb, _ := json.MarshalIndent(map[string]any{"property": prop, "pkg": h.Pkg, "harness": h.Func, "kind": v.Kind, "label": v.Label,
 					"msg": v.Msg, "site": v.Site, "model": v.Model, "params": tier.Params, "known": knownIDs, "native_outcome": o}, "", " ")
@@ -430,7 +430,7 @@ func writeEvidence(prop, tier string, seed int64, hev []harnessEvidence, spec Ch
 		"violations":  violations,
 	}
 	b, _ := json.MarshalIndent(ev, "", " ")
-	os.WriteFile(filepath.Join(verifDir, "evidence", prop+".json"), b, 0o644)
+	os.WriteFile(filepath.Join(evidenceDir(), prop+".json"), b, 0o644)
 }
 
 // cmdReplay re-runs a stored replay file natively and reports the outcome.
@@ -472,4 +472,14 @@ func cmdReplay(args []string) int {
 	}
 	fmt.Printf("VIOLATION property=%s replay=%s\n", rf.Property, args[0])
 	return 1
+}
+
+// evidenceDir: /verif/evidence; a run against a scratch tree (VERIF_REPO, used
+// for trying seeded changes) writes elsewhere so that committed evidence
+// always describes /repo.
+func evidenceDir() string {
+	if os.Getenv("VERIF_REPO") != "" {
+		return filepath.Join(os.TempDir(), "verif-scratch-evidence")
+	}
+	return filepath.Join(verifDir, "evidence")
 }
